@@ -1308,7 +1308,9 @@ reg(Prop("C19", "The tuner optimises the same evaluation the engine plays with",
                          "bare-king, insufficient-material, KNBvK and heavy-material positions, a third of them with the "
                          "halfmove clock overridden to 1..150; each evaluated by Eval[Score] on three loadings (restored with "
                          "hash history, without hash, board.ParseFEN) and by Eval[float64]/EngineRep.Eval with EngineCoeffs() on "
-                         "the no-hash board, the ParseFEN board and the epd.Parse board; non-trivial = not a dead-draw "
+                         "the no-hash board, the ParseFEN board (this one on a coefficient object with the life of the tuner's own: zero value, "
+                         "evaluated, SetVector(shipped), one parameter nudged and restored through TunedParams with an evaluation in "
+                         "between) and the epd.Parse board; non-trivial = not a dead-draw "
                          "material balance; distinct by FEN"),
           StreamCfg("c19z", 400, 20000,
                     rule="same generator; Go Eval[Score] on the no-hash board against the wrapping int16 model eval_Z, the "
